@@ -185,3 +185,6 @@ func VerifH16d() {
 	nd.Assert(counts[0] == snapshot[0] && counts[1] == snapshot[1], "H16d.job-started-after-stop")
 	nd.Reach("H16d.end")
 }
+
+// VerifOptions returns the options a pool was built with (overlay only).
+func VerifOptions(p *Pool) Options { return p.opts }
